@@ -243,7 +243,11 @@ def _member(d: Any, cls: str, v: Any) -> str | None:
         fl, fs, fv = Fraction(d.low), Fraction(d.step), Fraction(v)
         k = round((fv - fl) / fs)
         err = abs(fv - (fl + k * fs))
-        tol = 4 * Fraction(math.ulp(max(abs(d.low), abs(d.high), abs(v))))
+        # a grid point reached through a normalised coordinate (GPSampler: scale to [0, 1], round,
+        # scale back) carries the rounding of several operations at the magnitude of the bounds:
+        # up to ~10 ulps were observed on the unchanged tree; 16 ulps of the largest magnitude
+        # involved is still 1e-9 of any step this generator produces
+        tol = 16 * Fraction(math.ulp(max(abs(d.low), abs(d.high), abs(v))))
         if err > tol:
             return f"off the step grid by {float(err):.3g}"
     return None
